@@ -16,7 +16,11 @@ EXTENDS Naturals, FiniteSets, Sequences, TLC, Json
 
 CONSTANT Hist
 
-PeerClass == {"unauth", "auth_unlisted", "auth_listed"}
+\* unauth: anonymous connection; claimed_listed: the connection carries a listed node DID that was never verified
+\* (Authenticated = FALSE); auth_nodid: authenticated flag without a node DID; auth_unlisted / auth_listed: verified DID
+PeerClass == {"unauth", "claimed_listed", "auth_nodid", "auth_unlisted", "auth_listed"}
+ListKnown == {"known_nopayload", "new"}      \* transaction in an incoming TransactionList: already stored (payload missing) | new
+ListPayload == {"matching", "mismatching", "empty"}
 KeySit    == {"can_decrypt", "not_recipient", "key_missing", "no_node_did"}
 TxClass   == {"public", "private"}
 Request   == {"PayloadQuery", "ListQuery", "RangeQuery", "GossipTick", "State"}
@@ -37,7 +41,7 @@ Init == phase = "idle" /\ sent = {} /\ stored = FALSE /\ authed = FALSE /\ hist 
 \* handleTransactionPayloadQuery, in the order of the code
 PayloadQueryAnswer(pc, ks, tc) ==
     IF tc = "public" THEN "payload"
-    ELSE IF pc = "unauth" THEN "empty"                       \* connection not authenticated
+    ELSE IF pc \in {"unauth", "claimed_listed"} THEN "empty"  \* connection not authenticated (whatever DID it claims)
     ELSE IF ks \in {"no_node_did", "key_missing"} THEN "empty" \* decryptPAL fails
     ELSE IF ks = "not_recipient" THEN "empty"                \* PAL cannot be decrypted: not meant for us
     ELSE IF pc # "auth_listed" THEN "empty"                  \* peer's node DID is not on the list
@@ -64,6 +68,17 @@ Receive(pc, inc, hasDid) ==
     /\ Log([a |-> "Receive", peer |-> pc, incoming |-> inc, nodedid |-> hasDid, expect |-> IF inc = "matching" THEN "stored" ELSE "rejected"])
     /\ UNCHANGED <<sent, authed>>
 
+\* handleTransactionList -> state.Add: a private transaction arrives in a TransactionList (answer to a range query)
+\* together with payload bytes. A known transaction is ignored entirely (also its payload); a new one is admitted
+\* with the payload only if the payload hashes to its payload hash, without payload if none came, and refused otherwise.
+ReceiveList(kn, pl) ==
+    /\ phase = "idle"
+    /\ phase' = "done"
+    /\ stored' = (kn = "new" /\ pl = "matching")
+    /\ Log([a |-> "ReceiveList", known |-> kn, incoming |-> pl,
+            expect |-> IF kn = "new" /\ pl = "matching" THEN "stored" ELSE "rejected"])
+    /\ UNCHANGED <<sent, authed>>
+
 \* tlsAuthenticator.Authenticate
 Authenticate(ac) ==
     /\ phase = "idle"
@@ -84,7 +99,8 @@ Reauthenticate(ac) ==
 Next ==
     \/ \E ac \in AuthCase : Reauthenticate(ac)
     \/ \E pc \in PeerClass, ks \in KeySit, tc \in TxClass, rq \in Request : Serve(pc, ks, tc, rq)
-    \/ \E pc \in PeerClass, inc \in Incoming, hd \in BOOLEAN : Receive(pc, inc, hd)
+    \/ \E pc \in {"unauth", "auth_unlisted", "auth_listed"}, inc \in Incoming, hd \in BOOLEAN : Receive(pc, inc, hd)
+    \/ \E kn \in ListKnown, pl \in ListPayload : ReceiveList(kn, pl)
     \/ \E ac \in AuthCase : Authenticate(ac)
 Spec == Init /\ [][Next]_vars
 
